@@ -193,3 +193,106 @@ void h_mfm_read_byte(void)
   VERIF_COVER(r.has && r.val == 0xA1, "decoded 0xA1");
   VERIF_COVER(!r.has, "rejected");
 }
+
+
+/* ================= the MFM decoder state machine (decode_mfm_track) ============================================== */
+#ifdef VERIF_MFM_STATE_MACHINE
+/* What the monitor needs to know about sec.data (std::vector<unsigned char>): its size and where its elements were copied
+   from -- which vector (identified by the facts recorded about it when std::copy ran), which slice. */
+struct secdata { size_t n; _Bool src_crc_ok; size_t src_n; unsigned long src_sync; byte src_mark; size_t src_from, copied; };
+struct DecSector { struct SectorAddress address; struct secdata data; unsigned char crc[2]; };
+static struct
+{
+  unsigned long syncs;                                     /* sync marks (A1 A1 A1 after 00) found so far */
+  const struct decvec *crc_vec; size_t crc_n; _Bool crc_ok;   /* the last CRC verdict: which vector, its length then, the verdict */
+  _Bool hdr_open, hdr_crc_ok; unsigned long hdr_sync; int hdr_size; struct SectorAddress hdr_addr;   /* the ID field in force */
+  unsigned long pushed;                                    /* sectors yielded */
+} MD;
+static void decsector_init(struct DecSector *s)
+{ s->data.n = 0; s->data.src_crc_ok = 0; s->data.src_n = 0; s->data.src_sync = 0; s->data.src_mark = 0; s->data.src_from = 0; s->data.copied = 0; }
+static void decvec_init(struct decvec *v) { v->n = 0; v->sync = 0; if (MD.crc_vec == v) MD.crc_ok = 0; }
+static struct opt_scan BitStream_scan_for_v(const struct BitStream *bits, size_t start, uint64_t val, uint64_t mask)
+{
+  struct opt_scan r = BitStream_scan_for(bits, start, val, mask);
+  if (r.has) MD.syncs = MD.syncs + 1;
+  return r;
+}
+static bool copy_mfm_bytes_v(const struct BitStream *bits, size_t *thisbit, size_t n, struct decvec *out)
+{
+  if (MD.crc_vec == out) MD.crc_ok = 0;                    /* the contents change: an earlier verdict no longer applies */
+  out->sync = MD.syncs;                                    /* these bytes follow sync mark number MD.syncs */
+  g_diag = 0;
+  return copy_mfm_bytes(bits, thisbit, n, out);
+}
+static bool check_crc_with_a1s_v(const struct decvec *v)
+{
+  bool r;
+  g_diag = 0;
+  r = check_crc_with_a1s(v);
+  MD.crc_vec = v; MD.crc_n = v->n; MD.crc_ok = r;
+  return r;
+}
+static bool decode_sector_address_and_size_v(const struct decvec *h, struct SectorAddress *a, int *siz)
+{
+  bool r;
+  __CPROVER_assert(h->n >= 5, "C07: the ID field decoder reads five bytes of the header vector");
+  g_diag = 0;
+  r = decode_sector_address_and_size(h_vec_store, a, siz);
+  MD.hdr_open = r;
+  if (r)
+    {
+      MD.hdr_crc_ok = (MD.crc_vec == h && MD.crc_ok && MD.crc_n == h->n && h->n == 7);
+      MD.hdr_sync = h->sync; MD.hdr_size = *siz; MD.hdr_addr = *a;
+    }
+  return r;
+}
+static void secdata_resize(struct DecSector *s, size_t k) { s->data.n = k; }
+static void secdata_copy(struct DecSector *s, const struct decvec *src, size_t from, size_t to)      /* std::copy(src.begin()+from, src.begin()+to, s.data.begin()) */
+{
+  __CPROVER_assert(from <= to && to <= src->n, "C07: std::copy source range lies inside the vector");
+  __CPROVER_assert(to - from <= s->data.n, "C07: std::copy destination holds the range");
+  s->data.src_crc_ok = (MD.crc_vec == src && MD.crc_ok && MD.crc_n == src->n);
+  s->data.src_n = src->n; s->data.src_sync = src->sync; s->data.src_mark = src->n ? h_vec_store[0] : 0;
+  s->data.src_from = from; s->data.copied = to - from;
+}
+/* C06: what must be true of every sector the decoder yields */
+static void mon_push_sector(const struct DecSector *s)
+{
+  __CPROVER_assert(MD.hdr_open && MD.hdr_crc_ok, "C06: the ID field of a yielded sector passed the CRC check (7 bytes after the sync)");
+  __CPROVER_assert(s->address.cylinder == MD.hdr_addr.cylinder && s->address.head == MD.hdr_addr.head && s->address.record == MD.hdr_addr.record,
+                   "C06: the address of a yielded sector is the one decoded from that ID field");
+  __CPROVER_assert(s->data.src_crc_ok, "C06: the data field of a yielded sector passed the CRC check");
+  __CPROVER_assert(s->data.src_n == (size_t)MD.hdr_size + 3 && s->data.src_from == 1 && s->data.copied == (size_t)MD.hdr_size && s->data.n == (size_t)MD.hdr_size,
+                   "C06: the data yielded is exactly the size-code many bytes between the mark and the CRC of that data field");
+  __CPROVER_assert(s->data.src_sync == MD.hdr_sync + 1, "C06: the data field is the first field after its ID field (no other mark in between)");
+  __CPROVER_assert(s->data.src_mark == data_address_mark, "C06: only data records (mark FB) are yielded");
+  MD.hdr_open = 0;                                          /* an ID field labels at most one data field */
+  MD.pushed = MD.pushed + 1;
+}
+#define MFM_DECODE_LOOP_CONTRACT \
+  __CPROVER_assigns(thisbit, state, sec, sec_size, MD, g_diag, __CPROVER_object_whole(h_crc_data), __CPROVER_object_whole(h_inner)) \
+  __CPROVER_loop_invariant(thisbit <= (1ul << 18) && MD.syncs <= thisbit && 2 * MD.pushed + (state == LookingForRecord ? 1 : 0) <= MD.syncs) \
+  __CPROVER_loop_invariant(state == LookingForSectorHeader || state == LookingForRecord) \
+  __CPROVER_loop_invariant(state == LookingForRecord ==> \
+     (MD.hdr_open && MD.hdr_crc_ok && MD.hdr_sync == MD.syncs && sec_size == MD.hdr_size && \
+      (sec_size == 128 || sec_size == 256 || sec_size == 512 || sec_size == 1024) && \
+      sec.address.cylinder == MD.hdr_addr.cylinder && sec.address.head == MD.hdr_addr.head && sec.address.record == MD.hdr_addr.record))
+#include "decode_mfm_track.inc"
+
+static void decode_mfm_track(const struct BitStream *bits)
+__CPROVER_requires(BS_OK(bits) && bits->first_ <= bits->raw_bit_size_)
+__CPROVER_requires(MD.syncs == 0 && MD.pushed == 0 && !MD.hdr_open && !MD.crc_ok)
+__CPROVER_assigns(MD, g_diag, __CPROVER_object_whole(h_crc_data), __CPROVER_object_whole(h_inner))
+/* every yielded sector satisfied the monitor (assertions in mon_push_sector); and a sector needs two marks of its own */
+__CPROVER_ensures(2 * MD.pushed <= MD.syncs);
+
+void h_decode_mfm(void)
+{
+  struct BitStream *b;
+  g_bit = nondet_uint(); __CPROVER_assume(g_bit < 8); g_m = nondet_size_t(); g_p = nondet_size_t();
+  MD.syncs = 0; MD.pushed = 0; MD.hdr_open = 0; MD.crc_ok = 0; MD.crc_vec = 0;
+  decode_mfm_track(b);
+  VERIF_COVER(MD.pushed == 2, "two sectors yielded");
+  VERIF_COVER(MD.syncs == 3 && MD.pushed == 0, "three marks, nothing yielded");
+}
+#endif
